@@ -43,7 +43,9 @@ SHAPES = {
         ("abcd", dict(f=("alpha", "beta", "gamma", "delta"))), ("dcba", dict(f=("delta", "gamma", "beta", "alpha"))), ("abc", dict(f=("alpha", "beta", "gamma"))),
         ("abce", dict(f=("alpha", "beta", "gamma", "epsilon"))), ("empty", dict(f=())), ("a,b", dict(f=("a,b",))), ("a|b", dict(f=("a", "b"))),
     ]),
-    "hdl": dict(fields=[("m", "Instantiable")], values=[("ModA", dict(m="ModA")), ("ModB", dict(m="ModB")), ("R1", dict(m="R1")), ("R2", dict(m="R2")), ("E1", dict(m="E1")), ("E2", dict(m="E2"))]),
+    "hdl": dict(fields=[("m", "Instantiable")], values=[("ModA", dict(m="ModA")), ("ModB", dict(m="ModB")), ("R1", dict(m="R1")), ("R2", dict(m="R2")), ("E1", dict(m="E1")), ("E2", dict(m="E2")),
+        # calls of an external module with dict parameters: equal dicts written in different key orders, and a different one
+        ("D1", dict(m="D1")), ("D1r", dict(m="D1r")), ("D2", dict(m="D2"))]),
 }
 
 
@@ -87,7 +89,9 @@ def make_env():
         k = h.Param(dtype=int, desc="k")
 
     ext = h.ExternalModule(name="Ext", port_list=[h.Port(name="x")], paramtype=EP, domain="hv")
-    objs = dict(ModA=modA, ModB=modB, R1=h.R(r=1), R2=h.R(r=2), E1=ext(k=1), E2=ext(k=2))
+    extd = h.ExternalModule(name="ExtD", port_list=[h.Port(name="x")], paramtype=dict, domain="hv")
+    objs = dict(ModA=modA, ModB=modB, R1=h.R(r=1), R2=h.R(r=2), E1=ext(k=1), E2=ext(k=2),
+                D1=extd(dict(w=1, l=2, m=3)), D1r=extd(dict(m=3, l=2, w=1)), D2=extd(dict(w=1, l=2, m=4)))
 
     def conv(shape, kw):
         out = {}
@@ -267,6 +271,33 @@ print(json.dumps(out, sort_keys=True))
 """
 
 
+def two_files(order):
+    """Same-named generators and modules defined in two source files with the same base name, used in the given order
+    (fresh process; see c09_twofiles.py)."""
+    script = os.path.join(os.path.dirname(__file__), "c09_twofiles.py")
+    r = subprocess.run([sys.executable, "-W", "ignore", script] + list(order), capture_output=True, text=True, env=dict(os.environ), timeout=300)
+    last = r.stdout.strip().splitlines()[-1] if r.stdout.strip() else ""
+    try:
+        return json.loads(last)
+    except Exception:
+        return {"process": "failed: " + r.stderr[-300:]}
+
+
+def judge_two_files(tf):
+    vals = list(tf.values())
+    if any("process" in v for v in vals):
+        return "scenario process failed: " + str(vals)
+    if vals[0] != vals[1]:
+        return f"exported names depend on which library was used first: {vals}"
+    for lib, other in (("liba", "libb"), ("libb", "liba")):
+        names = vals[0][lib]
+        if any(other + "." in n for n in names) or not all((lib + ".") in n for n in names if "Top_" not in n):
+            return f"modules defined in {lib}/amps.py are exported as {names}"
+    if set(vals[0]["liba"]) & set(vals[0]["libb"]):
+        return f"two different generated modules share an export name: {sorted(set(vals[0]['liba']) & set(vals[0]['libb']))}"
+    return None
+
+
 def run(ctx):
     items = []
     for shape, sd in SHAPES.items():
@@ -308,6 +339,13 @@ def run(ctx):
     ctx.fam("fresh_processes", runs=len(outs))
     if len(set(outs)) != 1:
         ctx.violation(dict(kind="name_process", shape="*", form="-"), dict(outputs=outs), "generated names differ between processes")
+    # same-named generators in two source files of the same base name: names carry their own package, in either use order
+    tf = {" > ".join(o): two_files(o) for o in (["liba", "libb"], ["libb", "liba"])}
+    ctx.count(states=2, transitions=4, traces_validated_against_impl=2)
+    ctx.fam("two_source_files", runs=2)
+    bad = judge_two_files(tf)
+    if bad:
+        ctx.violation(dict(kind="name_source_file", shape="*", form="-"), dict(two_files=True, results=tf), bad)
     ctx.sample(dict(shape="two_str", a="x b=y|z", b="x|y b=z", form="kw"))
     ctx.sample(dict(shape="hdl", values=["ModA", "ModA2"], form="outer"))
     ctx.assume("parameter equality (==) of the param-class instances decides which calls must share a Module",
@@ -316,6 +354,10 @@ def run(ctx):
 
 def replay(body):
     c = body["case"]
+    if c.get("two_files"):
+        bad = judge_two_files({k: two_files(k.split(" > ")) for k in c["results"]})
+        print("replay:", bad or "holds")
+        return 1 if bad else 0
     if "a" in c:
         labels = [v[0] for v in SHAPES[c["shape"]]["values"]]
         bad = _pair((c["shape"], labels.index(c["a"]), labels.index(c["b"]), c["form"]))
